@@ -740,7 +740,21 @@ def int_range_of_group(P, name):
 def cased_atoms_without_icase(node, P):
     """Character atoms that can match a cased letter but are not case-insensitive."""
     bad = []
-    for n in walk(node):
+    # a called group, (?&name), matches with the flags in force where it was *defined*: follow
+    # the calls into the definitions (e.g. the (?(DEFINE)...) block in front of the (?i))
+    todo = [node]
+    seen_calls = set()
+    nodes = []
+    while todo:
+        cur = todo.pop()
+        for n in walk(cur):
+            nodes.append(n)
+            if n.kind == "call" and n.idx not in seen_calls:
+                seen_calls.add(n.idx)
+                g = P.by_idx.get(n.idx)
+                if g is not None:
+                    todo.append(g.child)
+    for n in nodes:
         if n.kind != "char":
             continue
         for leaf in n.cs.leaves():
@@ -1113,3 +1127,174 @@ def group_may_take_leading_blank(P, gname):
         else:
             return False
     return False
+
+
+# ---------------------------------------------------------------------------
+# preferred match: a small backtracking matcher over the syntax tree, exploring alternatives and
+# repetitions in the engine's priority order (leftmost alternative first, greedy before lazy), so
+# that "which of several possible matches does the engine report" can be decided for sample texts.
+class _Budget(Exception):
+    pass
+
+
+def _word_char(ch):
+    return ch.isalnum() or ch == "_"
+
+
+def preferred_match(P, text, start=0, node=None, budget=200000):
+    """(end, {group name or index: (start, end)}) of the match the engine prefers for *node*
+    (default: the whole pattern) anchored at *start* in *text*, or None; Undecided on constructs
+    outside the model or when the budget is exhausted."""
+    root = node if node is not None else P.root
+    steps = [0]
+
+    def tick():
+        steps[0] += 1
+        if steps[0] > budget:
+            raise _Budget()
+
+    def m(n, i, caps, k, depth=0):
+        """match n at i, then continuation k(i2, caps2); returns the first successful result"""
+        tick()
+        if depth > 200:
+            raise Undecided("recursion depth in preferred_match")
+        kind = n.kind
+        if kind == "char":
+            if i < len(text) and n.cs.contains(ord(text[i])):
+                return k(i + 1, caps)
+            return None
+        if kind == "seq":
+            def run(idx, i2, caps2):
+                if idx == len(n.items):
+                    return k(i2, caps2)
+                return m(n.items[idx], i2, caps2, lambda i3, c3: run(idx + 1, i3, c3), depth + 1)
+            return run(0, i, caps)
+        if kind == "alt":
+            for a in n.items:
+                r = m(a, i, caps, k, depth + 1)
+                if r is not None:
+                    return r
+            return None
+        if kind == "group":
+            def after(i2, caps2):
+                c3 = dict(caps2)
+                c3[n.idx] = (i, i2)
+                if n.name:
+                    c3[n.name] = (i, i2)
+                return k(i2, c3)
+            return m(n.child, i, caps, after, depth + 1)
+        if kind == "atomic":
+            got = m(n.child, i, caps, lambda i2, c2: (i2, c2), depth + 1)
+            if got is None:
+                return None
+            return k(got[0], got[1])
+        if kind == "call":
+            g = P.by_idx.get(n.idx)
+            if g is None:
+                raise Undecided("call of unknown group")
+            return m(g.child, i, caps, k, depth + 1)
+        if kind == "rep":
+            lo, hi = n.lo, n.hi
+            mode = n.mode or "greedy"
+
+            def rep(count, i2, caps2):
+                tick()
+                can_more = hi is None or count < hi
+                if mode in ("greedy", "poss"):
+                    if can_more:
+                        def again(i3, c3):
+                            if i3 == i2 and count >= lo:
+                                return None      # empty iteration: stop
+                            return rep(count + 1, i3, c3)
+                        r = m(n.child, i2, caps2, again, depth + 1)
+                        if r is not None:
+                            return r
+                    if count >= lo:
+                        return k(i2, caps2)
+                    return None
+                # lazy
+                if count >= lo:
+                    r = k(i2, caps2)
+                    if r is not None:
+                        return r
+                if can_more:
+                    def again(i3, c3):
+                        if i3 == i2 and count >= lo:
+                            return None
+                        return rep(count + 1, i3, c3)
+                    return m(n.child, i2, caps2, again, depth + 1)
+                return None
+            if mode == "poss":
+                got = None
+
+                def first(i2, c2):
+                    return (i2, c2)
+                # possessive: take the greedy result of the repetition alone, no backtracking into it
+                saved_k = k
+                k_id = lambda i2, c2: (i2, c2)   # noqa
+                inner = Rep(lo, hi, n.child, "greedy")
+                got = m(inner, i, caps, k_id, depth + 1)
+                if got is None:
+                    return None
+                return saved_k(got[0], got[1])
+            return rep(0, i, caps)
+        if kind == "look":
+            if n.behind:
+                # lookbehind: some start j <= i such that child matches text[j:i] exactly
+                found = False
+                for j in range(i, -1, -1):
+                    r = m(n.child, j, caps, lambda i2, c2: (i2, c2) if i2 == i else None, depth + 1)
+                    if r is not None:
+                        found = True
+                        break
+                    if i - j > 12:
+                        break
+            else:
+                found = m(n.child, i, caps, lambda i2, c2: (i2, c2), depth + 1) is not None
+            if found == n.positive:
+                return k(i, caps)
+            return None
+        if kind == "bound":
+            before = _word_char(text[i - 1]) if i > 0 else False
+            after_ = _word_char(text[i]) if i < len(text) else False
+            what = n.what
+            if what == "word":
+                ok = (before != after_)
+                if not n.positive:
+                    ok = not ok
+            elif what == "sow":
+                ok = (not before) and after_
+            elif what == "eow":
+                ok = before and not after_
+            elif what == "sos":
+                ok = i == 0
+            elif what == "eos":
+                ok = i == len(text)
+            elif what == "sol":
+                ok = i == 0 or text[i - 1] == "\n"
+            elif what == "eol":
+                ok = i == len(text) or text[i] == "\n"
+            else:
+                raise Undecided("boundary " + what)
+            return k(i, caps) if ok else None
+        if kind == "cond":
+            if n.group == 0:      # (?(DEFINE)...)
+                return m(n.no, i, caps, k, depth + 1) if not isinstance(n.no, Seq) or n.no.items else k(i, caps)
+            taken = n.group in caps
+            return m(n.yes if taken else n.no, i, caps, k, depth + 1)
+        raise Undecided("preferred_match: " + kind)
+    try:
+        return m(root, start, {}, lambda i2, c2: (i2, c2))
+    except _Budget:
+        raise Undecided("preferred_match: budget exhausted")
+    except RecursionError:
+        raise Undecided("preferred_match: recursion")
+
+
+def preferred_search(P, text, node=None, budget=400000):
+    """first position at which the pattern matches, with that match: (start, end, groups) or None"""
+    for s in range(0, len(text) + 1):
+        r = preferred_match(P, text, s, node=node, budget=budget)
+        if r is not None:
+            return s, r[0], r[1]
+    return None
